@@ -394,6 +394,8 @@ def emit_ins(fn, bn, s, edge, nva, decl):
     if op == 'getelementptr':
         e, _ = parse_gep_body(rest, 0, fn)
         # propagate va_list identity through trivial geps/bitcasts
+        mm0 = re.match(r'^\(?\(char\*\)\((r_\w+)\) \+ \(0\)\)?$', e.strip())
+        if mm0 and mm0.group(1) in fn.va: fn.va[r] = fn.va[mm0.group(1)]
         return '%s = %s;' % (r, e)
     if op in ('bitcast', 'ptrtoint', 'inttoptr', 'trunc', 'zext', 'fptoui', 'uitofp', 'fpext', 'fptrunc'):
         t, j = parse_type(rest, 0, m); v, j = parse_value(rest, j, t, fn); dt = fn.vt[r]
